@@ -14,6 +14,16 @@ CHECKS = {
          "Same exploration as C01 with the capacity/liveness oracles: immediate admission when a slot is free and nobody queued, rejection exactly max_wait after first poll and only with the timeout error, rejected/cancelled requests never reach the inner service, and from every reachable state a drain followed by a probe burst must find full capacity again.",
          "As C01. 'Arrival' is the first poll of the call future (timeout starts there); time between call() and first poll is excluded by the prompt-executor rule.",
          "4 C07"),
+ "C02": ("svcx", "model_checking",
+         "explicit-state BFS over event schedules of the real RateLimiter under a controlled scheduler and virtual clock",
+         "Every schedule of arrivals (on every 10 ms grid instant incl. exact window boundaries), polls, drops and timer firings of limit+2..limit+3 callers on clones of one real RateLimiter is executed for all three window types; in every state the list of admission instants must admit a cut into windows >= refresh_period with <= limit admissions each (exact memoised search, independent of the implementation's notion of window) or, for the sliding log, have limit+1 consecutive admissions spanning >= refresh_period.",
+         "Prompt-executor rule; inner resolves at once (admission instant = inner call instant); period 40 ms, limit in {1,2}, timeout in {0,10,40,60,100} ms.",
+         "4 C02"),
+ "C15": ("svcx", "model_checking",
+         "explicit-state BFS over event schedules of the real RateLimiter + idle-burst probe from every state",
+         "Same exploration as C02 with the decision oracles: every caller is decided within timeout_duration of its first poll; a caller arriving while fewer than limit admissions lie in the look-back window is admitted in that poll; rejected and cancelled callers never reach the inner service, admitted ones exactly once; from every state, after draining and two idle periods, a burst of limit callers is admitted at once.",
+         "As C02. 'Spare capacity' is judged by the implementation-independent sufficient condition (fewer than limit admissions in the last period; last two periods for the sliding counter).",
+         "4 C15"),
 }
 
 NOT_YET = {}
